@@ -116,6 +116,13 @@ fn registry() -> Vec<CheckDef>
 			case_timeout_ms: 30_000,
 			level_text: "exhaustive enumeration of all labelled dependency digraphs on a bounded number of containers (constants and structures) with every kind assignment and every permutation of the declarations, all duplicate-name pairs, a type x position legality table under several declaration orders and all word member lists up to three members; each program compiled by the real pipeline and compared with a graph model (acyclic <=> accepted, cycle codes) and across permutations",
 		},
+		CheckDef {
+			id: "C09",
+			drive: checks::c09::drive,
+			work: checks::c09::work,
+			case_timeout_ms: 60_000,
+			level_text: "complete enumeration of the finite literal matrix (integer types x type context x boundary magnitudes x spellings x signs; every byte value, raw character, escape form and unicode boundary in character and string position; adjacent-literal concatenations; every malformed form), each compiled by the real pipeline and executed with lli; run-time values, the L1142 lint and the rejection codes are compared with an arbitrary-precision reference model",
+		},
 	]
 }
 
